@@ -159,6 +159,15 @@ def resolvePlainRs (s : List Char) : Scalar :=
       | _ => parseIntOrFloatRs s
     else .str s
 
+/-- The documented deviations of `resolve_plain` from the core schema (header of `scalar.rs`):
+an integer outside `i64` (decimal: becomes a float or a string; `0x`/`0o`: stays a string) and a
+decimal float whose value overflows `f64` (stays a string). -/
+def deviates (s : List Char) : Bool :=
+  match coreResolve s with
+  | .int n => !(decide (-(2 : Int) ^ 63 ≤ n) && decide (n < (2 : Int) ^ 63))
+  | .float .finite => !floatBodyFinite (splitSign s).2
+  | _ => false
+
 /-! ## DOM emitter (`yq_runner.rs`) -/
 
 /-- `yaml_double_quote_escaped`: the escape of one character. -/
